@@ -120,6 +120,7 @@ def make_session(impl, dims, seed, connect=True, **kw):
     noise = set(dims.get("noise", ()))
     sim = simdev.SimDevice(rng=random.Random(rng.random()), maxdata=dims.get("maxdata", 4096), remote_ids=dims.get("remote", "random"),
                            noise=noise - {"bg"})
+    kw.setdefault("budget", 5000000)   # transport calls per API call: a logical bound against non-termination
     s = session_mod.Session(impl, sim=sim, rng=rng, frag=dims.get("frag", "whole"), empty_rate=dims.get("empty_rate", 0.0), **kw)
     s.dims = dims
     if connect:
